@@ -121,6 +121,13 @@ pub mod bridge;
 pub mod client;
 #[cfg(feature = "client")]
 pub(crate) mod happy_eyeballs;
+
+/// Verification hook (compiled only with the `verif-hooks` cargo feature): public access to the
+/// crate-private happy-eyeballs race, so that counterexamples can be replayed natively.
+#[cfg(all(feature = "client", feature = "verif-hooks"))]
+pub mod verif_hooks {
+    pub use crate::happy_eyeballs::{EyeballSet, HappyEyeballsError};
+}
 pub mod info;
 #[cfg(feature = "server")]
 mod rewind;
